@@ -21,6 +21,9 @@ COMMON_NOTE = ("Trusted: the harness's dense long-double reference, the choice-s
                "Exploration only: the property is shown to hold on the generated cases (counts in the evidence file), nothing is proved.")
 
 INFO = {
+    "C06": dict(level="exploration", assumptions=COMMON_ASSUME + ["preconditions of each Fact value taken from the routine header and EXAMPLE/?linsolx{1,2,3}.c"], note=COMMON_NOTE,
+                technique="stateful property-based testing (rapidcheck): generated call histories over one sparsity pattern with an invariant (C02 + C03 + C05 oracles, pivot-reuse rule, factor immutability under FACTORED) checked after every step; the whole history shrinks as one value",
+                text="Whole histories over Fact in {DOFACT, SamePattern, SamePattern_SameRowPerm, FACTORED} are generated with value changes designed to defeat the remembered pivots; every step is held to the guarantees of a fresh factorization."),
     "C08": dict(level="fault_enumeration", assumptions=COMMON_ASSUME + ["a run longer than 10 s (normal: < 1 ms) counts as a hang and is confirmed by three replays in fresh processes"], note=COMMON_NOTE + " Workspace lengths and allocation-failure positions are enumerated completely for the sampled problems; the problems themselves are generated.",
                 technique="property-based testing (rapidcheck) with an exhaustive inner enumeration of workspace lengths (every byte count, both alignments) and of allocation-failure positions, ASan-poisoned guard zones, fork isolation with a watchdog, differential against library allocation",
                 text="For each generated problem every exhaustion point is a distinct fault: all workspace lengths up to beyond the requirement and all failure positions among the factor-growth requests are enumerated; the outcome must be a reported shortage or factors bit-identical to library allocation."),
@@ -73,7 +76,7 @@ INFO = {
 
 NOT_APPLICABLE = {}
 
-PROPS = ["C01", "C02", "C03", "C04", "C05", "C07", "C08", "C10", "C11", "C12", "C13", "C14", "C16", "C17", "C18", "C20"]
+PROPS = ["C01", "C02", "C03", "C04", "C05", "C06", "C07", "C08", "C10", "C11", "C12", "C13", "C14", "C16", "C17", "C18", "C20"]
 
 
 def all_props():
